@@ -48,7 +48,10 @@ func DrawSpec(t *rapid.T, label string) *Spec {
 	case k == 7 || k == 8:
 		return &Spec{Kind: "enum", Text: rapid.SampledFrom([]string{"[1, 2, \"a\"]", "[\n 1, // one\n \"a\" /* b */\n]", "[]", "[1, 1]", "[true, null, 1.5] x", "[1,", "42"}).Draw(t, label+"Enum")}
 	}
-	return &Spec{Kind: "regex", Text: rapid.SampledFrom([]string{"/^a+$/", "/[0-9]{2,3}/ tail", "/a\\/b/", "/x|y/", "abc", "/(", "/[a-z]{8}/", "/[a-z]{1}[0-9]?[A-Z]*(x|y|z)+/", "/\\Bfoo/"}).Draw(t, label+"Regex")}
+	// (several specs of one pool may hold the same pattern under different file names and seeds)
+	return &Spec{Kind: "regex", Text: rapid.SampledFrom([]string{"/^a+$/", "/[0-9]{2,3}/ tail", "/a\\/b/", "/x|y/", "abc", "/(", "/[a-z]{8}/", "/[a-z]{1}[0-9]?[A-Z]*(x|y|z)+/", "/\\Bfoo/",
+		"/a\\bb/", "/a\\bb/ tail", "/[a-z]{16}/", "/[a-z]{16}/", "/a\\bb/"}).Draw(t, label+"Regex"),
+		Name: rapid.SampledFrom([]string{"", "", "other.jst", "third"}).Draw(t, label+"RegexName"), Seed: rapid.SampledFrom([]int64{0, 0, 1, 2, 7}).Draw(t, label+"RegexSeed")}
 }
 
 // DrawTwinSpecs: two roots with the same text and the same shared type objects (@key, an alias used
